@@ -172,7 +172,7 @@ class DilationWorld:
         for link in self.net.links:
             for side in (0, 1):
                 end = link.ends[side]
-                if not end.transport.closed and link.pending(side) > 0 and not end.transport.reading_paused:
+                if not end.transport.closed and not end.transport.disconnecting and link.pending(side) > 0 and not end.transport.reading_paused:
                     for n in self._chunks(link, side):
                         evs.append(("deliver", link.idx, side, n))
         for c in self.net.attempts:
